@@ -65,6 +65,7 @@ pub fn target_name(t: u8) -> &'static str {
         T_EMPTY => "empty-method",
         T_LEADING_DOT | T_DOUBLE_DOT | T_TRAILING_DOT => "odd-dots",
         T_SERVICE => "service-interface",
+        T_UNKNOWN_IFACE => "unknown-interface",
         _ => "empty-method",
     }
 }
@@ -75,7 +76,7 @@ pub fn service(sc_msgs: &[Msg]) -> (VarlinkService, *const ScriptIface) {
     let mut names: Vec<&'static str> = Vec::new();
     for m in sc_msgs.iter().filter(|m| m.parse_ok) {
         if let Some(n) = iface_of(m.target) {
-            if n != "org.varlink.service" && !names.contains(&n) {
+            if n != "org.varlink.service" && is_registered(m.target) && !names.contains(&n) {
                 names.push(n);
             }
         }
@@ -243,7 +244,7 @@ pub fn run_stream(sc: &C01, tail: &[u8], flags: u8, malformed: &str) -> Outcome 
     let scenario = format!(
         "stream {} ; dispatched implementations (replies, outcome 0=Ok 1=Err 2=upgrade): {:?}",
         String::from_utf8_lossy(&input).replace('\0', "\\0"),
-        sc.msgs[..k].iter().filter(|m| iface_of(m.target).is_some()).map(|m| (m.nreplies, m.outcome)).collect::<Vec<_>>()
+        sc.msgs[..k].iter().filter(|m| is_registered(m.target)).map(|m| (m.nreplies, m.outcome)).collect::<Vec<_>>()
     );
     Outcome {
         reproduced: violated,
@@ -275,6 +276,10 @@ pub fn instance_of(name: &str) -> Option<(usize, &'static [u8], usize, [u8; KMAX
         "c01_k1_e" => (1, b"t", NF, [E, D, D]),
         "c01_k1_d_f0" | "c06_k1_malformed" | "c06_k1_truncated" | "c06_k1_wrong_shape" => (1, b"t", 0, [D, D, D]),
         "c01_k2_dd" | "c01_k2_dd_flags2" | "c01_k2_err_first" | "c01_k2_upgrade_first" => (2, b"t", NF, [D, D, D]),
+        "c01_k1_u" => (1, b"t", NF, [T_UNKNOWN_IFACE, D, D]),
+        "c01_k2_ud" => (2, b"t", NF, [T_UNKNOWN_IFACE, D, D]),
+        "c01_k2_du" => (2, b"t", NF, [D, T_UNKNOWN_IFACE, D]),
+        "c01_k3_dud" => (3, b"", NF, [D, T_UNKNOWN_IFACE, D]),
         "c01_k2_nd" => (2, b"t", NF, [N, D, D]),
         "c01_k2_dn" => (2, b"t", NF, [D, N, D]),
         "c01_k2_ed" => (2, b"t", NF, [E, D, D]),
